@@ -62,6 +62,8 @@ def run(shard, ctx):
         longs = [L + "#" * 1100, L + "b" * 1300, L + "#b" * 700, L + "b#" * 900 + "b"]
         # ... and longer than the interpreter's recursion limit in these shards (3000)
         longs += [L + "#" * 3400, L + "b#" * 1800 + "b"]
+        # ... and names that are instances of a str subclass
+        names += [T.SubStr(L + "#"), T.NamedStr(L + "b"), T.SubStr(L + "bb#"), T.NamedStr(L)]
         # ... and long names that agree in letter, first accidental and length and differ in what they add up to
         longs += [L + "#" * (40 - f_) + "b" * f_ for f_ in (0, 5, 1, 20, 39)] + [L + "b" * (64 - f_) + "#" * f_ for f_ in (0, 7, 2)]
         for n in names + longs:
